@@ -855,12 +855,27 @@ class NumpyProxy(object):
             _hit('numpy.allclose')
             a_ = np.broadcast_to(np.asarray(a, dtype=object), np.broadcast(a, b).shape)
             b_ = np.broadcast_to(np.asarray(b, dtype=object), a_.shape)
+            ctx = S.current_ctx()
+
+            def is_zero(t):
+                # exactly zero for ALL admissible inputs (constant zero, or `t != 0` unsatisfiable
+                # under the assumptions / path); a term that can be non-zero is generically not
+                # within atol of zero -- the thin set where it is lies outside the claim
+                if t.is_const():
+                    return t.cval() == 0
+                if ctx is None:
+                    return False
+                r = ctx.feasible(t != 0)
+                if r == 'unknown':
+                    from .engine import Inconclusive
+                    raise Inconclusive('numpy.allclose: cannot decide whether a term is identically zero')
+                return r == 'unsat'
             for idx in np.ndindex(*a_.shape):
                 d = _norm_elem(a_[idx]) - _norm_elem(b_[idx])
                 if isinstance(d, SymC):
-                    if not (d.re.is_const() and d.re.cval() == 0 and d.im.is_const() and d.im.cval() == 0):
+                    if not (is_zero(d.re) and is_zero(d.im)):
                         return False
-                elif not (d.is_const() and d.cval() == 0):
+                elif not is_zero(d):
                     return False
             return True
         return np.allclose(a, b, *args, **kw)
